@@ -285,6 +285,12 @@ def c02_4(ctx: Ctx) -> RuleResult:
                 if g is not f and s in ctx.cg.reachable([g], include_nested_values=False):
                     ct = X.at(f, call_)
                     ok = wt in ct[2] or any(v == wt for _k3, v in ct[3])
+                    if not ok and g is s:
+                        # the per-realization loop written out in place: the solver itself is called, for the
+                        # realizations that these weights leave active (the weights govern the call)
+                        from ..util import path_condition, stmt_of
+
+                        ok = any(x == wt for c_, _pol in path_condition(ctx, f, stmt_of(call_)) for x in X.closure(c_))
                     res.add(f, call_, f"`{g.name}` receives the same normalised weights as the estimator", ok,
                             "" if ok else "the least-squares stage uses other weights than the estimator", construct=f"{f.name}: weights to {g.name}")
     res.floor = 2
